@@ -124,12 +124,17 @@ type rig struct {
 	fail     string
 }
 
+var maxRegs = 1 << 30
+
 var (
+	hookOnce sync.Once
 	hookMu   sync.Mutex
 	hookRigs = map[*client.Conn]*rig{}
 )
 
-func init() {
+// installHook is called by the sub-command (never from init: every driver of
+// the binary installs its own hook when it runs).
+func installHook() {
 	client.VerifHook = func(ev string, c *client.Conn, a ...interface{}) {
 		if ev != "hset.dispatch.end" || c == nil {
 			return
@@ -154,6 +159,7 @@ func init() {
 }
 
 func newRig() (*rig, error) {
+	hookOnce.Do(installHook)
 	r := &rig{nextID: 1, removers: map[int]client.Remover{}, used: map[int]bool{}, rmselfed: map[int]bool{}, bgDone: map[string]chan struct{}{}}
 	r.s = sess.New(func(c *client.Config) {
 		c.Recover = func(conn *client.Conn, l *client.Line) {
@@ -207,9 +213,12 @@ func (r *rig) register(id int, set, name, body string, arg int) {
 				rm = r.removers[arg]
 			}
 		case "addfg", "addbg":
-			addSet = body[3:]
-			newID = r.nextID
-			r.nextID++
+			// like the model, an adder does nothing once all identities are used up
+			if r.nextID <= maxRegs {
+				addSet = body[3:]
+				newID = r.nextID
+				r.nextID++
+			}
 		}
 		r.mu.Unlock()
 		if rm != nil {
@@ -396,7 +405,9 @@ func RunEdges(args []string) int {
 	fs := flag.NewFlagSet("disp-edges", flag.ExitOnError)
 	out := fs.String("out", ".", "directory for failure artefacts")
 	replay := fs.String("replay", "", "re-run a failure artefact")
+	mr := fs.Int("maxregs", 1<<30, "MaxRegs of the configuration (identities an adder body may still use)")
 	fs.Parse(args)
+	maxRegs = *mr
 	if *replay != "" {
 		return runReplay(*replay)
 	}
